@@ -284,6 +284,10 @@ def shrink_steps(scn):
                 s = copy.deepcopy(scn)
                 s['conns'][c][i]['cuts'] = []
                 yield s
+    if scn.get('peer_closes'):
+        s = copy.deepcopy(scn)
+        s.pop('peer_closes')
+        yield s
     for key in list((scn.get('opts') or {}).keys()):
         if key != 'serial_timeout':
             s = copy.deepcopy(scn)
